@@ -9,7 +9,10 @@ pub struct SpecBuf<const N: usize> {
 
 impl<const N: usize> SpecBuf<N> {
     pub fn new() -> Self {
-        SpecBuf { buf: [0; N], len: 0 }
+        SpecBuf {
+            buf: [0; N],
+            len: 0,
+        }
     }
     pub fn push(&mut self, b: u8) {
         self.buf[self.len] = b;
